@@ -1,1 +1,306 @@
-// harnesses for boot_sector (included into /repo/src/boot_sector.rs under cfg(kani))
+// Harnesses for src/boot_sector.rs (C06 formatting arithmetic, C07 mount validation, C11/C20 offsets).
+// Included as `crate::boot_sector::verif` under cfg(kani); sees the module's private items.
+use super::*;
+use crate::verif_support::spec;
+
+pub(crate) fn any_bpb() -> BiosParameterBlock {
+    BiosParameterBlock {
+        bytes_per_sector: kani::any(),
+        sectors_per_cluster: kani::any(),
+        reserved_sectors: kani::any(),
+        fats: kani::any(),
+        root_entries: kani::any(),
+        total_sectors_16: kani::any(),
+        media: kani::any(),
+        sectors_per_fat_16: kani::any(),
+        sectors_per_track: kani::any(),
+        heads: kani::any(),
+        hidden_sectors: kani::any(),
+        total_sectors_32: kani::any(),
+        sectors_per_fat_32: kani::any(),
+        extended_flags: kani::any(),
+        fs_version: kani::any(),
+        root_dir_first_cluster: kani::any(),
+        fs_info_sector: kani::any(),
+        backup_boot_sector: kani::any(),
+        reserved_0: [0; 12],
+        drive_num: kani::any(),
+        reserved_1: kani::any(),
+        ext_sig: kani::any(),
+        volume_id: kani::any(),
+        volume_label: [0x20; 11],
+        fs_type_label: [0x20; 8],
+    }
+}
+
+fn geo_of(b: &BiosParameterBlock) -> spec::Geo {
+    spec::geo(b.bytes_per_sector, b.sectors_per_cluster, b.reserved_sectors, b.fats, b.root_entries, b.total_sectors_16,
+              b.total_sectors_32, b.sectors_per_fat_16, b.sectors_per_fat_32)
+}
+
+/// The coherence conditions of property C07, evaluated in u64 from the raw fields only.
+fn spec_coherent(b: &BiosParameterBlock) -> bool {
+    let g = geo_of(b);
+    if !(spec::is_pow2(g.bps) && g.bps >= 512 && g.bps <= 4096) { return false; }
+    if !spec::is_pow2(g.spc) { return false; }
+    if g.fats == 0 || g.spf == 0 || g.reserved == 0 { return false; }
+    if g.first_data >= g.total { return false; }          // regions fit, no wrap (u64)
+    if g.total > u32::MAX as u64 { return false; }
+    let clusters = (g.total - g.first_data) / g.spc;
+    let w = spec::width_from_clusters(clusters);
+    if (w == 2) != g.is_fat32_by_field { return false; }  // FAT width consistent with the cluster count
+    if w == 2 {
+        let root = b.root_dir_first_cluster as u64;
+        if root < 2 || root >= clusters + 2 { return false; }
+        if b.fs_info_sector as u64 >= g.reserved || b.backup_boot_sector as u64 >= g.reserved { return false; }
+        if b.root_entries != 0 || b.total_sectors_16 != 0 { return false; }
+    } else if b.root_entries == 0 {
+        return false;
+    }
+    true
+}
+
+/// C07: validation of ARBITRARY BPB fields never panics or overflows.
+#[kani::proof]
+fn bpb_validate_total() {
+    let bpb = any_bpb();
+    let r = bpb.validate::<()>();
+    kani::cover!(r.is_ok() && bpb.is_fat32());
+    kani::cover!(r.is_ok() && !bpb.is_fat32());
+    kani::cover!(r.is_err());
+}
+
+/// C07: a BPB is accepted only if its geometry is coherent per the independent u64 evaluation.
+#[kani::proof]
+fn bpb_accept_coherent() {
+    let bpb = any_bpb();
+    if bpb.validate::<()>().is_ok() {
+        assert!(spec_coherent(&bpb));
+        kani::cover!(bpb.is_fat32());
+        kani::cover!(!bpb.is_fat32() && bpb.total_sectors_16 == 0);
+        kani::cover!(bpb.fats == 3);
+    }
+}
+
+/// C07: for accepted BPBs the derived geometry equals the independent u64 parse of the same fields.
+#[kani::proof]
+fn bpb_geometry_agrees() {
+    let bpb = any_bpb();
+    kani::assume(bpb.validate::<()>().is_ok());
+    let g = geo_of(&bpb);
+    assert!(u64::from(bpb.root_dir_sectors()) == g.root_sectors);
+    assert!(u64::from(bpb.sectors_per_all_fats()) == g.fats * g.spf);
+    assert!(u64::from(bpb.first_data_sector()) == g.first_data);
+    assert!(u64::from(bpb.total_sectors()) == g.total);
+    let clusters = (g.total - g.first_data) / g.spc;
+    assert!(u64::from(bpb.total_clusters()) == clusters);
+    assert!(u64::from(bpb.cluster_size()) == g.bps * g.spc);
+    let ft = FatType::from_clusters(bpb.total_clusters());
+    let w = spec::width_from_clusters(clusters);
+    assert!(match ft { FatType::Fat12 => w == 0, FatType::Fat16 => w == 1, FatType::Fat32 => w == 2 });
+    kani::cover!(ft == FatType::Fat12);
+    kani::cover!(ft == FatType::Fat16);
+    kani::cover!(ft == FatType::Fat32);
+}
+
+/// must-fail twin for bpb_accept_coherent: claims every accepted volume has exactly 2 FATs.
+#[kani::proof]
+fn twin_bpb_accept_two_fats() {
+    let bpb = any_bpb();
+    if bpb.validate::<()>().is_ok() {
+        assert!(bpb.fats == 2);
+    }
+}
+
+/// C11/C20: for an accepted BPB, every cluster in [2, total_clusters+2) lies inside the volume; sector and byte
+/// offsets are computed without 32-bit wrap-around and equal the u64 reference.
+#[kani::proof]
+fn bpb_cluster_offset_in_volume() {
+    let bpb = any_bpb();
+    kani::assume(bpb.validate::<()>().is_ok());
+    let g = geo_of(&bpb);
+    let total_clusters = bpb.total_clusters();
+    let c: u32 = kani::any();
+    kani::assume(c >= 2 && c - 2 < total_clusters);
+    let sectors = bpb.sectors_from_clusters(c - 2);                       // overflow-checked by Kani
+    assert!(u64::from(sectors) == (c as u64 - 2) * g.spc);
+    let first = bpb.first_data_sector() + sectors;                        // what FileSystem::sector_from_cluster does
+    let off = bpb.bytes_from_sectors(first);
+    let ref_off = (g.first_data + (c as u64 - 2) * g.spc) * g.bps;
+    assert!(off == ref_off);
+    assert!(off + u64::from(bpb.cluster_size()) <= g.total * g.bps);     // last byte of the cluster is inside the volume
+    kani::cover!(off > (1u64 << 32));
+    kani::cover!(off > (1u64 << 40));
+    kani::cover!(c - 2 == total_clusters - 1 && total_clusters > 0x0100_0000);
+}
+
+/// C20: clusters_from_bytes / bytes_from_sectors are exact in 64 bits.
+#[kani::proof]
+fn bpb_byte_sector_conversions() {
+    let bpb = any_bpb();
+    kani::assume(bpb.validate_bytes_per_sector::<()>().is_ok() && bpb.validate_sectors_per_cluster::<()>().is_ok());
+    let s: u32 = kani::any();
+    assert!(bpb.bytes_from_sectors(s) == s as u64 * bpb.bytes_per_sector as u64);
+    let bytes: u64 = kani::any();
+    kani::assume(bytes <= u32::MAX as u64);
+    let cs = bpb.cluster_size() as u64;
+    let n = bpb.clusters_from_bytes(bytes) as u64;
+    assert!(n * cs >= bytes && (n == 0 || (n - 1) * cs < bytes));
+}
+
+// ------------------------------------------------------------------------------------------- C06
+
+fn default_opts() -> FormatVolumeOptions { FormatVolumeOptions::new() }
+
+/// C06: with default options formatting succeeds for EVERY sector count from 42 to 2^32-1.
+#[kani::proof]
+fn fmt_default_all_sizes() {
+    let total_sectors: u32 = kani::any();
+    kani::assume(total_sectors >= 42);
+    let r = format_boot_sector::<()>(&default_opts(), total_sectors);
+    assert!(r.is_ok());
+}
+
+/// must-fail twin: the threshold 42 is exact (41 sectors cannot be formatted).
+#[kani::proof]
+fn twin_fmt_default_41() {
+    let total_sectors: u32 = kani::any();
+    kani::assume(total_sectors >= 41);
+    let r = format_boot_sector::<()>(&default_opts(), total_sectors);
+    assert!(r.is_ok());
+}
+
+/// Independent validity predicate for the result of formatting (C06), in u64.
+fn spec_format_valid(b: &BiosParameterBlock, ft: FatType, o: &FormatVolumeOptions, total_sectors: u32) -> bool {
+    let g = geo_of(b);
+    if g.total != total_sectors as u64 { return false; }
+    if b.bytes_per_sector != o.bytes_per_sector || b.fats != o.fats { return false; }
+    if let Some(bpc) = o.bytes_per_cluster { if g.bps * g.spc != bpc as u64 { return false; } }
+    if !spec_coherent(b) { return false; }
+    let clusters = (g.total - g.first_data) / g.spc;
+    let w = spec::width_from_clusters(clusters);
+    let wt = match ft { FatType::Fat12 => 0, FatType::Fat16 => 1, FatType::Fat32 => 2 };
+    if w != wt { return false; }
+    if let Some(req) = o.fat_type { if req != ft { return false; } }
+    // each table can address every cluster
+    if g.spf * g.bps * 8 / spec::bits(w) < clusters + 2 { return false; }
+    // all regions fit inside the declared size
+    if g.reserved + g.fats * g.spf + g.root_sectors + clusters * g.spc > g.total { return false; }
+    if w == 2 {
+        if b.root_dir_first_cluster != 2 || b.fs_info_sector != 1 || b.backup_boot_sector != 6 || g.reserved <= 6 { return false; }
+        if clusters > 0x0FFF_FFF4 { return false; }
+    } else {
+        if b.root_entries != o.max_root_dir_entries { return false; }
+        if b.total_sectors_16 != 0 && b.total_sectors_32 != 0 { return false; }
+    }
+    if b.extended_flags != 0 || b.fs_version != 0 || b.reserved_1 != 0 || b.media != o.media { return false; }
+    true
+}
+
+/// C06: default options, every size: the produced boot sector passes the library's own strict validation AND the
+/// independent validity predicate; free space arithmetic (clusters, minus the root cluster on FAT32) is well-defined.
+#[kani::proof]
+fn fmt_default_valid() {
+    let total_sectors: u32 = kani::any();
+    kani::assume(total_sectors >= 42);
+    let o = default_opts();
+    let r = format_boot_sector::<()>(&o, total_sectors);
+    if let Ok((boot, ft)) = r {
+        assert!(boot.validate::<()>(true).is_ok());
+        assert!(spec_format_valid(&boot.bpb, ft, &o, total_sectors));
+        assert!(boot.boot_sig == [0x55, 0xAA]);
+        kani::cover!(ft == FatType::Fat12);
+        kani::cover!(ft == FatType::Fat16);
+        kani::cover!(ft == FatType::Fat32);
+        kani::cover!(total_sectors == u32::MAX);
+    }
+}
+
+fn any_fat_type_opt() -> Option<FatType> {
+    let k: u8 = kani::any();
+    match k & 3 { 0 => None, 1 => Some(FatType::Fat12), 2 => Some(FatType::Fat16), _ => Some(FatType::Fat32) }
+}
+
+fn fmt_options_check(bps: u16, fat_type: Option<FatType>) {
+    let total_sectors: u32 = kani::any();
+    let bpc_shift: u8 = kani::any();
+    kani::assume(bpc_shift >= 9 && bpc_shift <= 31);
+    let has_bpc: bool = kani::any();
+    let fats: u8 = kani::any();
+    kani::assume(fats == 1 || fats == 2);
+    let has_drive: bool = kani::any();
+    let has_label: bool = kani::any();
+    let o = FormatVolumeOptions {
+        bytes_per_sector: bps,
+        total_sectors: Some(total_sectors),
+        bytes_per_cluster: if has_bpc { Some(1u32 << bpc_shift) } else { None },
+        fat_type,
+        max_root_dir_entries: kani::any(),
+        fats,
+        media: kani::any(),
+        sectors_per_track: kani::any(),
+        heads: kani::any(),
+        drive_num: if has_drive { Some(kani::any()) } else { None },
+        volume_id: kani::any(),
+        volume_label: if has_label { Some(kani::any()) } else { None },
+    };
+    // format_volume = format_boot_sector + strict validation (fs.rs); Err must be InvalidInput
+    let mut accepted = false;
+    match format_boot_sector::<()>(&o, total_sectors) {
+        Ok((boot, ft)) => {
+            if boot.validate::<()>(true).is_ok() {
+                accepted = true;
+                assert!(spec_format_valid(&boot.bpb, ft, &o, total_sectors));
+                if let Some(req) = fat_type { assert!(req == ft); }
+            }
+        }
+        Err(e) => {
+            assert!(matches!(e, Error::InvalidInput));
+        }
+    }
+    kani::cover!(accepted || bps > 4096);
+    kani::cover!((accepted && has_bpc) || bps > 4096);
+    kani::cover!(!accepted);
+}
+
+/// C06: symbolic options (cluster size, FAT count, root entries, label, ids) x every sector count, one harness per
+/// (sector size, forced FAT type): never panics; Ok + self-validation => independent validity; Err => InvalidInput.
+/// (A symbolic Option<FatType> in ONE query did not finish in 5 min; each concrete case takes 0.5-2 min.)
+macro_rules! fmt_case {
+    ($name:ident, $bps:expr, $ft:expr) => {
+        #[kani::proof]
+        fn $name() { fmt_options_check($bps, $ft); }
+    };
+}
+fmt_case!(fmt_options_512_auto, 512, None);
+fmt_case!(fmt_options_512_fat12, 512, Some(FatType::Fat12));
+fmt_case!(fmt_options_512_fat16, 512, Some(FatType::Fat16));
+fmt_case!(fmt_options_512_fat32, 512, Some(FatType::Fat32));
+fmt_case!(fmt_options_1024_auto, 1024, None);
+fmt_case!(fmt_options_1024_fat12, 1024, Some(FatType::Fat12));
+fmt_case!(fmt_options_1024_fat16, 1024, Some(FatType::Fat16));
+fmt_case!(fmt_options_1024_fat32, 1024, Some(FatType::Fat32));
+fmt_case!(fmt_options_2048_auto, 2048, None);
+fmt_case!(fmt_options_2048_fat12, 2048, Some(FatType::Fat12));
+fmt_case!(fmt_options_2048_fat16, 2048, Some(FatType::Fat16));
+fmt_case!(fmt_options_2048_fat32, 2048, Some(FatType::Fat32));
+fmt_case!(fmt_options_4096_auto, 4096, None);
+fmt_case!(fmt_options_4096_fat12, 4096, Some(FatType::Fat12));
+fmt_case!(fmt_options_4096_fat16, 4096, Some(FatType::Fat16));
+fmt_case!(fmt_options_4096_fat32, 4096, Some(FatType::Fat32));
+// sector sizes the options builder accepts although no volume can be created with them (thorough tier)
+fmt_case!(fmt_options_8192_auto, 8192, None);
+fmt_case!(fmt_options_16384_auto, 16384, None);
+fmt_case!(fmt_options_32768_auto, 32768, None);
+fmt_case!(fmt_options_32768_fat32, 32768, Some(FatType::Fat32));
+
+/// must-fail twin for fmt_options: claims forced FAT16 always succeeds.
+#[kani::proof]
+fn twin_fmt_forced_fat16_always_ok() {
+    let total_sectors: u32 = kani::any();
+    kani::assume(total_sectors >= 42);
+    let mut o = default_opts();
+    o.fat_type = Some(FatType::Fat16);
+    assert!(format_boot_sector::<()>(&o, total_sectors).is_ok());
+}
+
